@@ -227,6 +227,8 @@ def rule_literal(ck):
 
 def run(ck):
     ck.run_rule("C15.table", "alphabet == DEC RADIX-50; encode_char indexes it", 41, rule_table)
+    from ..rules import escape as _esc
+    ck.run_rule("G16", "'<n>' codes and strings that depend on later definitions are evaluated when known: no blanket handler swallows 'not yet'", 8, _esc.rule_G16)
     ck.run_rule("C15.pack", "pack_to_int = 1600*c1 + 40*c2 + c3 with space padding", 4, rule_pack)
     ck.run_rule("C15.rad50", ".rad50: weights, grouping, padding, case, unknown characters, <n> bound", 12, rule_rad50)
     from ..rules import route
